@@ -64,13 +64,19 @@ CHECKS = {
          "Depth towers in 4 container mixes (scalar/empty innermost, siblings, whitespace) through every path that reads, skips, validates, formats, writes tokens or raw values, marshals or unmarshals, including splits between token calls and one value call, must be accepted at 10000 and refused with an error at 10001; deep and cyclic Go values through 17 pointer-like kinds (cycles starting after 0/1/999/1000/1001 levels, pointer/interface-only cycles) must return an error and never exhaust the stack (each in its own child process); hostile byte strings, API-call scripts, misuse sequences and reuse of caller-held coders after failed calls run under a panic and hang monitor.",
          "trusted base: the closed list of documented API-misuse panics (DESIGN.md §4 C20); the watchdog only flags non-termination after a solitary re-run, its first firing is inconclusive",
          "DESIGN.md §4 C20"),
+ "C10": ("exploration", "exact-arithmetic runtime monitor: every formatted float is judged by a math/big checker (round trip, shortest, closest, ECMA-262 layout) incl. all 2^32 float32 bit patterns in the thorough tier; every parse into 11 integer and 2 float types through 4 routes plus Token accessors is decided by big.Int/big.Rat at the type bounds",
+         "Formatting: float32 bit patterns (all of them in thorough, every 1021st in quick) and stratified float64 values (all exponents x mantissa patterns, +-1000 ulps around every layout switch, powers of ten, 2^53+-k, subnormals, max) through AppendFloat/Marshal/string tag/StringifyNumbers/map keys/any/Token: the text must parse back to the same bits, be the shortest such decimal, the closest among the shortest, and laid out as Number::toString (with -0). Parsing: integer literals within +-2000 of every +-2^k type bound, 19-21 digit strings around 2^63/2^64, random number literals, exact float midpoints +- epsilon, quoted forms and map keys: accepted exactly or refused precisely at the bounds, fractions/exponents/minus-on-unsigned refused; Token.Int/Uint/Float classify syntax vs range with the documented truncation and saturation.",
+         "trusted base: math/big (Rat/Int) and the ES6 layout function in /verif/ref (self-tested against strconv)",
+         "DESIGN.md §4 C10"),
+ "C15": ("exploration", "reference-model runtime monitor: a model of the documented struct-field rules (breadth-first, shallowest wins, tag breaks ties, else dropped; case folding; fallbacks; omitzero/omitempty/string) predicts the emitted member list and, per probe name, the receiving field or error class for reflect-built type graphs; sentinels in every leaf identify fields",
+         "Struct type graphs to depth 4 (embedding via the embed option, Go embedding of generated and declared structs by value/pointer/unexported, reuse along several paths, forced name collisions across and within depths, > 64 and > 128 fields, fallbacks) under 5 option sets: the marshaled member names, order and sentinels must equal the model's list; every probe name (exact, case and delimiter variants, unknown) must be stored into the model's field or fail with the model's error class (ambiguous, unknown); omitzero/omitempty/string must take effect on exactly the flagged fields when their documented condition holds. The one disagreement with the documented rules found on this tree (diamond embedding, F6) is a recorded known finding matched by its exact shape.",
+         "trusted base: ref.ModelStruct, a reading of the package documentation, not a transcription of fields.go",
+         "DESIGN.md §4 C15"),
 }
 
 NOT_YET = {
  "C04": "monitor built (cmd/c04) but it still raises alarms on the unchanged tree that are being triaged (oracle vs library); not claimed until silent or the findings are recorded",
  "C09": "monitor built (cmd/c09) but its divergence reports on the unchanged tree are still being triaged into fixes / known findings; not claimed until then",
- "C10": "monitor built (cmd/c10) but two Token.Int/Uint alarms on the unchanged tree are being triaged; not claimed until then",
- "C15": "monitor built (cmd/c15); the diamond-embedding finding F6 and a v1 fold-order divergence are not yet recorded as known findings; not claimed until then",
  "C18": "monitor built (cmd/c18, race build) but too slow and not yet silent on the unchanged tree; not claimed until then",
 }
 
